@@ -87,3 +87,118 @@ func VerifC05Watch() {
 	}
 	zzverif.Cover("done")
 }
+
+// vWriteSeq issues a fixed sequence of successful writes (create, then updates) with symbolic
+// values on vNames[0]; it returns nothing and never waits for the sequencer.
+func (w *vWorld) vWriteSeq(n int) {
+	key := vNames[0]
+	var last uint64
+	if cur, ok := w.g.At(key, 0); ok {
+		last = cur.Rev
+	}
+	for i := 0; i < n; i++ {
+		val := zzverif.Bytes("seq"+string(rune('0'+i)), 1)
+		var typ proto.Event_EventType
+		var rev uint64
+		if last == 0 {
+			resp, err := w.b.Create(vCtx(), &proto.CreateRequest{Key: key, Value: val})
+			zzverif.Assert(err == nil && resp.Succeeded, "writer: create succeeds")
+			rev, typ = resp.Header.Revision, proto.Event_CREATE
+		} else {
+			resp, err := w.b.Update(vCtx(), &proto.UpdateRequest{Kv: &proto.KeyValue{Key: key, Value: val, Revision: last}})
+			zzverif.Assert(err == nil && resp.Succeeded, "writer: update succeeds")
+			rev, typ = resp.Header.Revision, proto.Event_PUT
+		}
+		w.dealt++
+		w.g.Append(key, rev, val, false)
+		w.evs = append(w.evs, vEvent{typ, key, val, rev, rev})
+		last = rev
+	}
+}
+
+// VerifC05Handover: watch registration racing writes (before registration, between subscription
+// and cache read, after): every interleaving of the registering client, the writer, the
+// sequencer and the fan-out within the preemption bound. The delivered sequence is exactly the
+// reference sequence, or the watch was refused.
+func VerifC05Handover() {
+	w := vNewWorld(1)
+	w.vWriteSeq(zzverif.Param("before", 1))
+	zzverif.WaitIdle()
+	s := zzverif.U64("S")
+	zzverif.Assume(zzverif.And(s > 0, s <= w.dealt+uint64(zzverif.Param("during", 2))+1))
+	var ch <-chan []*proto.Event
+	var werr error
+	done := make(chan struct{}, 2)
+	zzverif.ExploreSchedules(zzverif.Param("preempt", 1))
+	zzverif.Foreground("collectStorageWriteEvents")
+	zzverif.Foreground("Stream")
+	zzverif.Go("watch", func() {
+		ch, werr = w.b.Watch(vCtx(), "/r/", s)
+		done <- struct{}{}
+	})
+	zzverif.Go("writer", func() {
+		w.vWriteSeq(zzverif.Param("during", 2))
+		done <- struct{}{}
+	})
+	<-done
+	<-done
+	zzverif.StopExploring()
+	zzverif.WaitIdle()
+	if werr != nil {
+		zzverif.Cover("refused")
+		return
+	}
+	got, closed := vDrainEvents(ch)
+	zzverif.Assert(!closed, "watch of a consumer that keeps up stays open")
+	w.checkEvents(got, 0, s, "/r/")
+	zzverif.Cover("done")
+}
+
+// VerifC05SlowConsumer: the fan-out stage in isolation. A subscriber whose buffers hold one
+// batch is registered with the real hub and forwarded by the real processEvents; k batches are
+// queued for broadcast; the consumer reads concurrently with the fan-out, the forwarder and the
+// removal of overflowing subscribers, in every interleaving within the delay bound. The delivered
+// sequence must be a gap-free prefix of the broadcast sequence: a stream never continues past an
+// event it did not deliver.
+func VerifC05SlowConsumer() {
+	w := vNewWorld(1)
+	sub := make(chan []*proto.Event, 1)
+	result := make(chan []*proto.Event, 1)
+	w.b.watcherHub.Lock()
+	w.b.watcherHub.subs[sub] = struct{}{}
+	w.b.watcherHub.Unlock()
+	k := zzverif.Param("batches", 5)
+	for i := 1; i <= k; i++ {
+		w.b.watchChan <- []*proto.Event{{Type: proto.Event_PUT, Revision: uint64(100 + i), Kv: &proto.KeyValue{Key: vNames[0], Value: zzverif.Bytes("e"+string(rune('0'+i)), 1), Revision: uint64(100 + i)}}}
+	}
+	var got []*proto.Event
+	closed := false
+	done := make(chan struct{}, 1)
+	zzverif.ExploreSchedules(zzverif.Param("preempt", 2))
+	zzverif.Foreground("Stream")
+	zzverif.Go("forwarder", func() { w.b.processEvents(func() {}, result, sub, "/r/", 0) })
+	zzverif.Go("consumer", func() {
+		for i := 0; i < zzverif.Param("reads", 4); i++ {
+			batch, ok := <-result
+			if !ok {
+				closed = true
+				break
+			}
+			got = append(got, batch...)
+		}
+		done <- struct{}{}
+	})
+	<-done
+	zzverif.StopExploring()
+	zzverif.WaitIdle()
+	for i, e := range got {
+		zzverif.Assert(e.Revision == uint64(101+i), "a stream never continues past an event it did not deliver")
+	}
+	if closed {
+		zzverif.Cover("closed-for-slow-consumer")
+	}
+	if len(got) >= 3 {
+		zzverif.Cover("several-delivered")
+	}
+	zzverif.Cover("done")
+}
